@@ -37,6 +37,8 @@ def pipe_violations(w):
                 out.append({"sig": "solver-call-contract", "what": f"step {idx} node {node}: a reduced-STG call returned {res} (limit {limit}); the reduced fixed points are {full}"}); break
         elif kind == "redok" and got != "1":
             out.append({"sig": "nfvs-reduction-fails", "what": f"step {idx} node {node}: for some assignment of the NFVS the reduced fixed points miss an attractor of the node (the reduction hypothesis of CandidatesFacts fails on this instance)"}); break
+        elif kind == "nonegwalk" and got != "1":
+            out.append({"sig": "nfvs-misses-negative-cycle", "what": f"step {idx} node {node}: the feedback vertex set returned for the node does not hit every negative cycle of the (semantic) interaction graph of the percolated network (engine contract of biodivine_aeon / node_percolated_nfvs)"}); break
         elif kind == "heurret":
             m = dict((int(a), int(b)) for a, b in (kv.split(":") for kv in got.split(","))) if got != "-" else {}
             if m != want:
@@ -247,6 +249,7 @@ def pipe_checks(rec, nm):
     out.append(("heurret", f"heurret {S} {avs} {nf}", dict((idx[v], int(b)) for v, b in rec["rinit"])))
     if len(rec["nfvs"]) <= 6:
         out.append(("redok", f"redok {S} {avs} {nf}", "1"))
+    out.append(("nonegwalk", f"nonegwalk {S} {nf}", "1"))
     for c in rec["calls"]:
         R = sp2s(dict(c["ret"]), nm)
         cav = ";".join(sp2s(a, nm) for a in c["avoid"]) or "-"
